@@ -190,7 +190,7 @@ func perturbQuote(q []byte, pr *ProbeRec, perturb string, k int) ([]byte, bool) 
 
 func teRewrite(q []byte, k int) []byte {
 	if q[0]>>4 == 4 {
-		q[8] = byte(k & 1) // TTL as the router saw it: 1 or 0
+		q[8] = byte(k & 1)                                                   // TTL as the router saw it: 1 or 0
 		q[1] = [...]byte{0xb8, 0xb8, 0x20, 0xc0, 0x03, 0xff}[(uint(k)>>2)%6] // TOS rewritten on the way (DSCP re-marked, ECN set)
 		if k&2 == 0 {
 			fixV4Csum(q)
